@@ -1,9 +1,281 @@
-"""Additional engines (precision-frame analysis, refinement pass, bounded stand-ins)."""
+"""Additional engines (precision-frame analysis, bounded stand-ins ...).  Each returns
+  dict(obligations=int, discharged=int, records=[(key, rec, unit)], violations=[(key, rec, path, suffix)],
+       undecided=[(key, why)], known_hits=[(finding, key, rec)], errors=[...], samples=[...],
+       assumptions=[...], functions=[...], coverage={...})
+"""
+import ast
+import json
+import multiprocessing as mp
+import os
+import sys
+import time
 
+HERE = os.path.dirname(os.path.dirname(os.path.abspath(__file__)))
+REPO = os.environ.get('PYVC_REPO', '/repo')
+
+
+# ======================================================================================= precframe
+
+def _pf_file(job):
+    path, conf_extra_helpers = job
+    import threading
+    out = {}
+
+    def work():
+        from pyvc import precframe as PF
+        from contracts.precframe_conf import CONF
+        conf = dict(CONF)
+        conf['helpers'] = set(CONF['helpers']) | set(conf_extra_helpers)
+        mod = os.path.relpath(path, os.path.join(REPO, 'mpmath'))[:-3].replace('/', '.')
+        tree = ast.parse(open(path).read())
+        funcs = []
+        for q, fn, parents in PF.iter_functions(tree):
+            qual = mod + '.' + q
+            info = {'qual': qual, 'line': fn.lineno, 'name': getattr(fn, 'name', '<lambda>'),
+                    'nested': bool(parents), 'method': _is_method(tree, fn),
+                    'decorators': [_dec_name(d) for d in getattr(fn, 'decorator_list', [])]}
+            if not PF.writes_precision(fn, conf['helpers']):
+                info['class'] = 'frame-trivial'
+                funcs.append(info)
+                continue
+            if qual in conf['setters']:
+                info['class'] = 'setter'
+                funcs.append(info)
+                continue
+            if info['name'] in conf['helpers'] and info['name'] != '<lambda>':
+                info['class'] = 'helper'
+                funcs.append(info)
+                continue
+            if 'defun_wrapped' in info['decorators'] or (
+                    parents and 'defun_wrapped' in [_dec_name(d) for d in getattr(parents[0], 'decorator_list', [])]):
+                # body (and its nested helpers/callbacks) runs only inside f_wrapped's try/finally
+                info['class'] = 'wrapped'
+                funcs.append(info)
+                continue
+            r = PF.analyze_function(qual, fn, conf)
+            info['class'] = 'analysed'
+            info['status'] = r['status']
+            info['reason'] = r.get('reason')
+            info['paths'] = r.get('paths')
+            info['exits'] = len(r['obligations'])
+            bad = [o for o in r['obligations'] if o['status'] != 'proved']
+            info['bad'] = bad[:3]
+            info['sample'] = r['obligations'][:1]
+            funcs.append(info)
+        out['funcs'] = funcs
+    threading.stack_size(512 * 1024 * 1024)
+    t = threading.Thread(target=work)
+    t.start()
+    t.join()
+    return out.get('funcs', [{'qual': path, 'class': 'crash'}])
+
+
+def _dec_name(d):
+    if isinstance(d, ast.Call):
+        d = d.func
+    if isinstance(d, ast.Attribute):
+        return d.attr
+    if isinstance(d, ast.Name):
+        return d.id
+    return '?'
+
+
+def _is_method(tree, fn):
+    for n in ast.walk(tree):
+        if isinstance(n, ast.ClassDef) and fn in n.body:
+            return n.name
+    return None
+
+
+def is_public(info, exported):
+    """public API per the property: context methods (defun*), methods of classes that are
+    not underscore-private (dunder methods count as public), exported module-level functions"""
+    name = info['name']
+    if info['nested']:
+        return False
+    private = name.startswith('_') and not (name.startswith('__') and name.endswith('__'))
+    if any(d in ('defun', 'defun_wrapped', 'defun_static') for d in info['decorators']):
+        return not private
+    if info['method']:
+        return not private and not info['method'].startswith('_')
+    return name in exported
+
+
+def run_precframe(prop, tier, seed, known, lock):
+    t0 = time.time()
+    os.environ.setdefault('MPMATH_NOGMPY', '1')
+    for p in (REPO, HERE):
+        if p not in sys.path:
+            sys.path.insert(0, p)
+    from pyvc import precframe as PF
+    from contracts.precframe_conf import CONF
+    import mpmath
+    exported = set(dir(mpmath))
+    files = [f for f in PF.module_files(REPO) if '/libmp/' not in f]
+    derived = set()
+    rounds = []
+    ctx = mp.get_context('fork')
+    result = None
+    for rnd in range(5):
+        with ctx.Pool(min(16, len(files))) as pool:
+            res = pool.map(_pf_file, [(f, sorted(derived)) for f in files], chunksize=1)
+        funcs = [x for r in res for x in r]
+        new = set()
+        for f in funcs:
+            if f.get('class') == 'analysed' and f['status'] != 'proved' and not is_public(f, exported):
+                if f['name'] != '<lambda>' and f['name'] not in CONF['helpers'] and f['name'] not in derived \
+                        and not f['nested']:
+                    new.add(f['name'])
+        rounds.append(sorted(new))
+        result = funcs
+        if not new:
+            break
+        derived |= new
+    funcs = result
+    out = {'obligations': 0, 'discharged': 0, 'records': [], 'violations': [], 'undecided': [],
+           'known_hits': [], 'errors': [], 'samples': [], 'functions': [], 'assumptions': [
+               'precframe: user-supplied callbacks leave the precision unchanged (they may raise)',
+               'precframe: a function touches one context only (every X.prec / X.dps denotes the same cell)',
+               'precframe: non-public functions that do not preserve the precision are treated as helpers: every caller sees the precision havocked after the call (derived helpers: %s)' % ', '.join(sorted(derived)),
+               'precframe: bodies of @defun_wrapped functions run only inside _wrap_specfun.f_wrapped, which is proved to restore the precision around an arbitrary body',
+               'precframe: mag(), int(), len(), max(), min() return Python ints',
+           ], 'coverage': {}}
+    from pyvc.check import write_replay, finding_matches
+    counts = {}
+    for f in funcs:
+        cls = f.get('class')
+        counts[cls] = counts.get(cls, 0) + 1
+        if cls == 'crash':
+            out['errors'].append('precframe crashed on %s' % f['qual'])
+            continue
+        key = 'precframe|%s' % f['qual']
+        if cls == 'frame-trivial':
+            # frame rule: no precision write, no helper call, no manager: preserves given callees preserve
+            rec = {'name': key, 'kind': 'frame', 'clause': 'preserves', 'status': 'proved', 'solver': 'syntactic'}
+            out['records'].append((key, rec, {'target': f['qual'], 'enum': {}}))
+            continue
+        if cls in ('setter', 'helper', 'wrapped'):
+            continue
+        rec = {'name': key, 'kind': 'precframe', 'clause': 'preserves', 'line': f['line'],
+               'status': 'proved' if f['status'] == 'proved' else ('sat' if f['status'] == 'violated' else 'unknown'),
+               'solver': 'z3', 'trace': (f.get('bad') or f.get('sample') or [{}])[0].get('trace'),
+               'reason': f.get('reason'), 'exits': f.get('exits'), 'paths': f.get('paths')}
+        unit = {'target': f['qual'], 'enum': {}, 'file': None}
+        if f['status'] == 'proved':
+            out['records'].append((key, rec, unit))
+            out['functions'].append(f['qual'])
+            if len(out['samples']) < 4:
+                out['samples'].append({'obligation': key, 'exits_checked': f.get('exits'), 'paths': f.get('paths'),
+                                       'status': 'proved'})
+            continue
+        if not is_public(f, exported) and not f['nested']:
+            continue        # became a derived helper; its callers carry the obligation
+        if f['nested']:
+            cb = CONF.get('callback_helpers', {})
+            hit = [k for k in cb if f['qual'].startswith(k)]
+            if hit:
+                continue    # nested callback run only by a consumer proved robust against arbitrary callbacks
+        out['records'].append((key, rec, unit))
+        bad = (f.get('bad') or [{}])[0]
+        rec['replay'] = {'status': 'static-path', 'observed': 'exit %s at line %s with precision %s' % (
+            bad.get('exit'), bad.get('line'), bad.get('P_exit'))}
+        kf = [k for k in known.get('findings', []) if finding_matches(k, prop, key, rec)]
+        if kf:
+            out['known_hits'].append((kf[0], key, rec))
+        elif f['status'] == 'violated' or key in lock:
+            rec['engine'] = 'precframe'
+            path = write_replay(prop, unit, rec, 'precision not restored on the recorded path (static path; dynamic replay by fault injection: ./vcheck --replay)')
+            _patch_replay(path, f)
+            dyn = replay_subprocess(os.path.join(HERE, path))
+            out['violations'].append((key, rec, path, '' if dyn == 1 else ' no-failing-input-found'))
+        else:
+            out['undecided'].append((key, 'precframe %s (%s)' % (f['status'], f.get('reason'))))
+    n_an = sum(1 for k, r, u in out['records'])
+    out['obligations'] = n_an
+    out['discharged'] = sum(1 for k, r, u in out['records'] if r['status'] == 'proved')
+    out['coverage'] = {'functions_total': len(funcs), 'classes': counts, 'derived_helpers': sorted(derived),
+                       'fixpoint_rounds': len(rounds), 'wall_s': round(time.time() - t0, 1)}
+    return out
+
+
+def _patch_replay(path, f):
+    p = os.path.join(HERE, path)
+    with open(p) as fh:
+        d = json.load(fh)
+    d['engine'] = 'precframe'
+    d['bad_exits'] = f.get('bad')
+    with open(p, 'w') as fh:
+        json.dump(d, fh, indent=1, default=repr)
+
+
+def replay_subprocess(path, timeout=120):
+    """dynamic replay in a child process (a replay must never hang or kill the check)"""
+    import subprocess
+    try:
+        r = subprocess.run([sys.executable, '-m', 'pyvc.check', '--replay', path], cwd=HERE,
+                           capture_output=True, text=True, timeout=timeout,
+                           env=dict(os.environ, MPMATH_NOGMPY='1'))
+        return r.returncode
+    except subprocess.TimeoutExpired:
+        return 2
+
+
+def replay_precframe_file(path, quiet=False):
+    with open(path) as f:
+        d = json.load(f)
+    return replay_precframe(d, quiet)
+
+
+def replay_precframe(d, quiet=False):
+    """dynamic replay by fault injection: call the public function through a driver from
+    contracts/precframe_drivers.py with a callee forced to raise, and compare mp.prec"""
+    os.environ.setdefault('MPMATH_NOGMPY', '1')
+    for p in (REPO, HERE):
+        if p not in sys.path:
+            sys.path.insert(0, p)
+    try:
+        from contracts import precframe_drivers as D
+    except Exception:
+        return 2
+    fn = d.get('function', '')
+    drv = D.DRIVERS.get(fn.split('.')[-1])
+    if drv is None:
+        if not quiet:
+            print('no dynamic driver for %s; static path: %s' % (fn, d.get('bad_exits')))
+        return 2
+    import mpmath
+    bad = 0
+    for scenario in drv:
+        for prec0 in (53, 101):
+            mpmath.mp.prec = prec0
+            try:
+                scenario(mpmath.mp)
+            except BaseException:
+                pass
+            after = mpmath.mp.prec
+            mpmath.mp.prec = 53
+            if after != prec0:
+                bad += 1
+                if not quiet:
+                    print('precision %d -> %d after %s' % (prec0, after, getattr(scenario, '__doc__', scenario)))
+                    print('VIOLATION property=%s replay=%s' % (d.get('property'), d.get('obligation')))
+                return 1
+    if bad:
+        if not quiet:
+            print('VIOLATION property=%s replay=%s' % (d.get('property'), d.get('obligation')))
+        return 1
+    return 0
+
+
+# ======================================================================================= dispatch
 
 def run(name, prop, tier, seed, known, lock):
+    if name == 'precframe':
+        return run_precframe(prop, tier, seed, known, lock)
     raise KeyError(name)
 
 
 def replay(d):
+    if d.get('engine') == 'precframe':
+        return replay_precframe(d)
     raise KeyError(d.get('engine'))
